@@ -403,6 +403,38 @@ impl PeerTracker {
     }
 }
 
+#[cfg(eigerco_lumina_verif)]
+impl PeerTracker {
+    /// Makes a disconnected peer look as if it had disconnected `dur` earlier than it
+    /// did.  `gc` reads `std::time::Instant`, which no runtime can pause, so expiry is
+    /// made reachable by ageing a peer explicitly.  Returns `false` if nothing was aged.
+    pub(crate) fn verif_age_disconnected(&mut self, peer_id: &PeerId, dur: Duration) -> bool {
+        let Some(tm) = self
+            .peers
+            .get_mut(peer_id)
+            .and_then(|peer| peer.disconnected_at.as_mut())
+        else {
+            return false;
+        };
+
+        match tm.checked_sub(dur) {
+            Some(aged) => {
+                *tm = aged;
+                true
+            }
+            None => false,
+        }
+    }
+
+    /// How long ago the peer lost its last connection (`None`: unknown peer or connected).
+    pub(crate) fn verif_disconnected_for(&self, peer_id: &PeerId) -> Option<Duration> {
+        self.peers
+            .get(peer_id)
+            .and_then(|peer| peer.disconnected_at)
+            .map(|tm| tm.elapsed())
+    }
+}
+
 #[cfg(test)]
 mod tests {
     use crate::events::EventChannel;
